@@ -58,6 +58,14 @@ Extra == <<
   [n |-> "profiles", top |-> FALSE, p |-> <<"profiles">>, v |-> Sq1(S("debug"))],
   \* an extension whose value holds x- keys of its own, in a mapping and inside a list of mappings: user data, kept as written
   [n |-> "nested extension", top |-> TRUE, p |-> <<"x-deploy-hints">>, v |-> M3("region", S("eu"), "x-owner", S("team-a"), "targets", Sq1(M2("zone", S("a"), "x-weight", S("heavy"))))],
+  \* values at the edge of their range: "unlimited" is written -1
+  [n |-> "memswap unlimited", top |-> FALSE, p |-> <<"memswap_limit">>, v |-> I(0 - 1)],
+  [n |-> "ulimit single unlimited", top |-> FALSE, p |-> <<"ulimits">>, v |-> M2("memlock", I(0 - 1), "nofile", M2("soft", I(0 - 1), "hard", I(0 - 1)))],
+  [n |-> "negative scalars", top |-> FALSE, p |-> <<"oom_score_adj">>, v |-> I(0 - 500)],
+  [n |-> "mem_swappiness zero", top |-> FALSE, p |-> <<"mem_swappiness">>, v |-> I(0)],
+  \* two mounts whose targets differ only by a trailing slash are the same mount point
+  [n |-> "volume targets trailing slash", top |-> FALSE, p |-> <<"volumes">>, v |-> Sq2(M3("type", S("volume"), "source", S("data"), "target", S("/data")), M3("type", S("volume"), "source", S("other"), "target", S("/data/")))],
+  [n |-> "extra_hosts several addresses", top |-> FALSE, p |-> <<"extra_hosts">>, v |-> L(<<S("h=10.0.0.2"), S("h=10.0.0.1"), S("g=::1")>>)],
   [n |-> "nested service extension", top |-> FALSE, p |-> <<"x-hints">>, v |-> M2("x-inner", M1("x-deep", I(1)), "plain", Sq1(M1("x-in-list", B(TRUE))))]
 >>
 \* each non-empty set of top-level sections absent while the others are present
